@@ -243,10 +243,11 @@ class bptk():
 
         The session state only records what was done (settings given when the session began, settings per step, results per step). The models themselves start from scratch after a restore, so the recorded steps are run again with their recorded settings; nothing is logged and the session clock is not moved."""
         state = self.session_state
-        if not state or not state.get("results_log"):
+        if not state:
             return
         settings_by_step = {float(step): settings for step, settings in (state.get("settings_log") or {}).items()}
-        steps = sorted(float(step) for step in state["results_log"].keys())
+        # a session saved before its first step has no steps to run again, but the settings it was begun with still apply
+        steps = sorted(float(step) for step in (state.get("results_log") or {}).keys())
         for _, manager in self.scenario_manager_factory.scenario_managers.items():
             if manager.name in state["scenario_managers"] and manager.type == "sd" and len(state["equations"]) > 0:
                 scenarios = [scenario for scenario in manager.scenarios.keys() if scenario in state["scenarios"]]
